@@ -41,12 +41,18 @@ REPR = {
 }
 SINGLE_VARIANT = ("null", "stream")      # kinds with one representative only
 EMPTY = {"array": [], "dict": {}, "string": b"", "name": Name("")}
+# boundary values of the kind that is there (content-class sites): first code point past Unicode, a lone surrogate,
+# 2**32; a target whose increment overflows four bytes, a lone surrogate in UTF-16BE, a long string
+EXTREME = {("int", 0): 0x110000, ("int", 1): 0xD800, ("int", 2): 1 << 32,
+           ("string", 0): HexStr(b"\xff\xff\xff\xff"), ("string", 1): HexStr(b"\xd8\x00"), ("string", 2): HexStr(b"A" * 40)}
 
 
 class Content(list):
     """structured data of a content stream: a list of parts, each either bytes (operators written out), or
     ('inline', {key: value}, image bytes)  - an inline image  BI <entries> ID <data> EI, or
-    ('props', {key: value})                - a property list dictionary written in place (operand of BDC / DP).
+    ('props', {key: value})                - a property list dictionary written in place (operand of BDC / DP), or
+    ('tokens', {"0": v0, "1": v1, ..}, tail) - the operands of one operator of a PostScript-like payload (a `put` of a
+                                             Type 1 header, a bfchar / bfrange entry of a CMap) followed by `tail`.
     The dictionaries are fault sites  <owner>/@<part index>/<key>  of class 'content'."""
 
     def render(self):
@@ -58,6 +64,9 @@ class Content(list):
                 out += b"BI " + b" ".join(ser(Name(k)) + b" " + ser(v) for k, v in part[1].items()) + b" ID " + part[2] + b" EI\n"
             elif part[0] == "props":
                 out += ser(part[1]) + b" "
+            elif part[0] == "tokens":
+                # operands of one operator, keyed "0", "1", ...: written in order, followed by the operator text
+                out += b" ".join(ser(v) for _, v in sorted(part[1].items(), key=lambda kv: int(kv[0]))) + part[2]
             else:
                 raise MachineryError("faultdoc: unknown content part %r" % (part[0],))
         return bytes(out)
@@ -175,10 +184,11 @@ def _walk(owner, ownerobj, v, path, objects, out, offsets=()):
 def _walk_content(owner, ownerobj, content, objects, out):
     for j, part in enumerate(content):
         if isinstance(part, tuple):
-            for k, x in part[1].items():
-                st = _site(owner, ownerobj, ("@%d" % j, k), "dict", x, objects, ())
+            sub = []
+            _walk(owner, ownerobj, part[1], ("@%d" % j,), objects, sub)
+            for st in sub:
                 st["cls"] = "content"
-                out.append(st)
+            out.extend(sub)
 
 
 def site_id(owner, path):
@@ -270,6 +280,8 @@ class Fault:
             x += ".%d" % self.variant
         if self.kind == "empty":
             x += "->" + self.to
+        if self.kind == "extreme":
+            x += ".%d" % self.variant
         if self.cls in ("payload", "file"):
             x += "@%d%s" % (self.pos, ("." + self.mode) if self.mode else "")
         elif self.nocache:
@@ -307,6 +319,8 @@ def plan(f, base):
         ind = f.to.startswith("r_")
         v = copy.deepcopy(EMPTY[f.to[2:] if ind else f.to])
         fixed = add(v) if ind else v
+    elif f.kind == "extreme":
+        fixed = copy.deepcopy(EXTREME[(f.to, f.variant)])
     elif f.kind == "rawstr":
         # encrypted documents: a string whose bytes in the file are no ciphertext (Raw bypasses the encryption
         # transform of the serialiser) and are shorter than an AES initialization vector
